@@ -169,10 +169,16 @@ class Verdict:
             if hit and (matches_asbuilt or not k.get("needs_asbuilt", False)):
                 self.known_hit.setdefault(k["key"], [0, k])[0] += 1
                 return
-        path = os.path.join(self.rdir, sanitize(cls) + "_%d.json" % len(self.violations))
-        if len(self.violations) < 50:
+        # a replay file for the first occurrences overall and for the first occurrence of every class
+        if not hasattr(self, "first_path"):
+            self.first_path = {}
+        if cls not in self.first_path or len(self.violations) < 50:
+            path = os.path.join(self.rdir, sanitize(cls) + "_%d.json" % len(self.violations))
             with open(path, "w") as f:
                 json.dump(record, f)
+            self.first_path.setdefault(cls, path)
+        else:
+            path = self.first_path[cls]
         self.violations.append((cls, path))
 
     def from_report(self, rep):
